@@ -1,0 +1,156 @@
+//go:build verif
+// +build verif
+
+// Verification shim for property C10 (replica placement). Add-only: thin exported wrappers so that the
+// harness module can build a tokenRing from plain host descriptions, select the placement strategy
+// from keyspace metadata, run replicaMap and the two token lookups, and read the results back as
+// indices into the host list. Nothing here re-implements driver logic.
+
+package gocql
+
+import (
+	"fmt"
+	"net"
+)
+
+// VerifC10Host describes one HostInfo: the fields placement reads.
+type VerifC10Host struct {
+	ID     string
+	DC     string
+	Rack   string
+	Addr   net.IP
+	Tokens []string
+}
+
+// VerifC10Entry is one ring / replica-map entry: token.String() and host indices.
+type VerifC10Entry struct {
+	Token string
+	Hosts []int
+}
+
+// VerifC10Lookup is the answer for one lookup token.
+type VerifC10Lookup struct {
+	Token      string // ParseString(input).String()
+	Found      bool   // replicasFor returned non-nil
+	EndToken   string
+	Hosts      []int
+	Owner      int    // GetHostForToken host index (-1: nil)
+	OwnerToken string // GetHostForToken end token ("" if nil)
+}
+
+// VerifC10Result is everything observed for one scenario.
+type VerifC10Result struct {
+	PartitionerErr bool
+	Ring           []VerifC10Entry // the sorted token ring: one host per entry
+	StrategyKind   int             // 0 nil, 1 simpleStrategy, 2 networkTopology
+	SimpleRF       int
+	NtsDCs         map[string]int
+	Panic          string // recovered panic text of replicaMap, "" if none
+	HaveMap        bool
+	Map            []VerifC10Entry
+	Lookups        []VerifC10Lookup
+}
+
+type verifC10Logger struct{}
+
+func (verifC10Logger) Print(v ...interface{})                 {}
+func (verifC10Logger) Printf(format string, v ...interface{}) {}
+func (verifC10Logger) Println(v ...interface{})               {}
+
+// VerifC10Strategy runs getStrategy only.
+func VerifC10Strategy(ks *KeyspaceMetadata) (kind int, simpleRF int, dcs map[string]int) {
+	switch s := getStrategy(ks, verifC10Logger{}).(type) {
+	case *simpleStrategy:
+		return 1, s.rf, nil
+	case *networkTopology:
+		return 2, 0, s.dcs
+	}
+	return 0, 0, nil
+}
+
+// VerifC10ParseToken is partitioner.ParseString followed by String.
+func VerifC10ParseToken(partitioner string, s string) (string, bool) {
+	tr, err := newTokenRing(partitioner, nil)
+	if err != nil {
+		return "", false
+	}
+	return tr.partitioner.ParseString(s).String(), true
+}
+
+// VerifC10Run builds the ring with newTokenRing, picks the strategy with getStrategy, runs
+// replicaMap (recovering a panic) and then replicasFor / GetHostForToken for every lookup token.
+// runMap=false stops after getStrategy (no replica map).
+func VerifC10Run(partitioner string, hosts []VerifC10Host, ks *KeyspaceMetadata, lookups []string, runMap bool) (res VerifC10Result) {
+	hs := make([]*HostInfo, len(hosts))
+	index := make(map[*HostInfo]int, len(hosts))
+	for i, v := range hosts {
+		hs[i] = &HostInfo{hostId: v.ID, dataCenter: v.DC, rack: v.Rack, connectAddress: v.Addr, tokens: v.Tokens}
+		index[hs[i]] = i
+	}
+	idx := func(h *HostInfo) int {
+		if h == nil {
+			return -1
+		}
+		if i, ok := index[h]; ok {
+			return i
+		}
+		return -2
+	}
+	idxs := func(l []*HostInfo) []int {
+		out := make([]int, len(l))
+		for i, h := range l {
+			out[i] = idx(h)
+		}
+		return out
+	}
+
+	tr, err := newTokenRing(partitioner, hs)
+	if err != nil {
+		res.PartitionerErr = true
+		return res
+	}
+	for _, ht := range tr.tokens {
+		res.Ring = append(res.Ring, VerifC10Entry{Token: ht.token.String(), Hosts: []int{idx(ht.host)}})
+	}
+
+	strat := getStrategy(ks, verifC10Logger{})
+	switch s := strat.(type) {
+	case *simpleStrategy:
+		res.StrategyKind, res.SimpleRF = 1, s.rf
+	case *networkTopology:
+		res.StrategyKind, res.NtsDCs = 2, s.dcs
+	}
+
+	var rm tokenRingReplicas
+	if strat != nil && runMap {
+		func() {
+			defer func() {
+				if r := recover(); r != nil {
+					res.Panic = fmt.Sprint(r)
+				}
+			}()
+			rm = strat.replicaMap(tr)
+			res.HaveMap = true
+		}()
+		if res.HaveMap {
+			for _, e := range rm {
+				res.Map = append(res.Map, VerifC10Entry{Token: e.token.String(), Hosts: idxs(e.hosts)})
+			}
+		}
+	}
+
+	for _, s := range lookups {
+		t := tr.partitioner.ParseString(s)
+		lk := VerifC10Lookup{Token: t.String(), Owner: -1}
+		if res.HaveMap {
+			if ht := rm.replicasFor(t); ht != nil {
+				lk.Found, lk.EndToken, lk.Hosts = true, ht.token.String(), idxs(ht.hosts)
+			}
+		}
+		if h, end := tr.GetHostForToken(t); h != nil {
+			lk.Owner, lk.OwnerToken = idx(h), end.String()
+		}
+		res.Lookups = append(res.Lookups, lk)
+	}
+	return res
+}
